@@ -190,6 +190,12 @@ func main() {
 	}
 	os.MkdirAll(evDir, 0o755)
 	bin := build(false)
+	if tier == "thorough" {
+		// prove determinism for this property first: a run that does not replay makes every later verdict worthless
+		if determinismRun([]string{prop}, false) > 0 {
+			die(2, "determinism self-test failed for %s (harness trouble, not a violation)", prop)
+		}
+	}
 	raceBin := ""
 	if cfg.Race {
 		raceBin = build(true)
@@ -627,6 +633,12 @@ func abbreviate(s string, n int) string {
 // determinism: for every claimed property, the same seed must give byte-identical history digests in separate
 // processes under GOMAXPROCS 1, 4 and 16 (two runs each). Exit 2 on any difference.
 func determinism(args []string) {
+	if determinismRun(args, true) > 0 {
+		os.Exit(2)
+	}
+}
+
+func determinismRun(args []string, verbose bool) int {
 	bin := build(false)
 	var ps []string
 	for _, a := range args {
@@ -692,7 +704,5 @@ func determinism(args []string) {
 		}
 	}
 	fmt.Printf("determinism: %d properties × %d seeds × %d processes (GOMAXPROCS 1,1,4,16,16) × %s plans each: %d comparisons, %d mismatches\n", len(ps), len(seeds), len(gmps), n, total, bad)
-	if bad > 0 {
-		os.Exit(2)
-	}
+	return bad
 }
